@@ -27,7 +27,7 @@ for i in ids:
     else:
         na.append(dict(property_id=i, reason=text.get("not_applicable", {}).get(i, "check not built yet in this round; planned as generated-input check per DESIGN.md section 5")))
 m = dict(version=1,
-         setup_cmd="cd /verif/harness && cp -n /repo/go.sum go.sum 2>/dev/null; GOFLAGS=-mod=mod GOPROXY=off GOSUMDB=off GOTOOLCHAIN=local go test -c -tags verif -vet=off -o /dev/null .",
+         setup_cmd="cd /verif/harness && cp -n /repo/go.sum go.sum 2>/dev/null; export GOFLAGS=-mod=mod GOPROXY=off GOSUMDB=off GOTOOLCHAIN=local; go test -c -tags verif -vet=off -o /dev/null . && (command -v go1.26.8 >/dev/null && go1.26.8 test -c -race -tags verif -vet=off -o /dev/null . || true)",
          hooks=dict(guard="verif", enable="go build tag: go test -tags verif (the harness module replaces github.com/filecoin-project/go-jsonrpc with /repo)",
                     baseline_off_cmd="cd /repo && GOFLAGS=-mod=mod GOPROXY=off GOSUMDB=off go test -vet=off -count=1 -timeout 25m ./...",
                     source_commits=list(reversed(hooks_commits)), add_only=True),
